@@ -58,14 +58,14 @@ def name_family(rng, taken):
         kinds = rng.sample(sorted(menu), rng.choice([1, 1, 2, 2, 3]))
         if "leading-zeros" not in kinds and rng.random() < 0.5:
             kinds[0] = "leading-zeros"
-        names = []
-        for k in kinds:
-            for x in menu[k]:
-                if x not in names:
-                    names.append(x)
+        # the first two names of the first kind are kept whatever the size: every family has at least one pair of that kind
+        names = list(menu[kinds[0]][:2])
+        rest = [x for k in kinds for x in menu[k] if x not in names]
+        rest = list(dict.fromkeys(rest))
+        rng.shuffle(rest)
+        names += rest[: rng.choice([0, 1, 2, 3, 4])]
         rng.shuffle(names)
-        names = names[: rng.choice([2, 3, 4, 5, 6])]
-        if len(names) >= 2 and not (set(names) & taken):
+        if len(set(names)) == len(names) and not (set(names) & taken):
             taken |= set(names)
             return names, sorted(kinds)
     raise RuntimeError("no name family found")
@@ -233,26 +233,24 @@ def spell(v, how, rng):
 
 
 def call_text(dev, method, params, how, rng):
-    """one spelling of dev.method(...) with the values of `params`"""
+    """one spelling of dev.method(...) with the values of `params`:
+       int / float / bool / folded: every parameter given (optional ones too for int / float / folded), keyword-only ones by keyword;
+       omit-defaults: every parameter that has a default (or is optional) left out;
+       positional: every parameter given, all by position (the transpiler may accept more by position than the host signature)"""
     args = []
-    positional_ok = True
+    by_position = True
     for (p, default, v, kwonly) in params:
-        omit = False
         if how == "omit-defaults" and default is not None:
-            omit = True                                   # the default itself, or `omit` (an optional argument)
-        elif default == "omit" and how not in ("int", "float", "folded", "positional"):
-            omit = True
-        if omit:
-            positional_ok = False
+            by_position = False
             continue
-        h = how if how in ("int", "float", "bool", "folded") else "int"
-        text = spell(v, h, rng)
-        if kwonly and how != "positional":
-            args.append(f"{p}={text}")
-            positional_ok = False
-        elif positional_ok and how != "omit-defaults":
+        if how == "bool" and default == "omit":
+            by_position = False
+            continue
+        text = spell(v, how if how in ("int", "float", "bool", "folded") else "int", rng)
+        if how == "positional" or (by_position and not kwonly):
             args.append(text)
         else:
+            by_position = False
             args.append(f"{p}={text}")
     return f"{dev}.{method}({', '.join(args)})"
 
